@@ -1,8 +1,187 @@
-import PyGam.Drv.Common
+import PyGam.Model.Heap
+import PyGam.Drv.TermParse
+/-!
+Driver of the C15 heap model.
+
+```
+C15 hist <nd> <nf> (<knots numeric> <knots categorical> <ncat>)^(nd*nf) | op ; op ; …
+op := E k (S|L|F feature nSplines order lam userKnots|-1)^k     s(..)+l(..)+f(..) with new term objects
+    | J a b                                                       e_a + e_b
+    | C cls mset scaleKnown e                                     Cls(terms=e_e)
+    | F i d iters                                                 gam_i.fit(data d)  (iters = PIRLS iterations observed)
+    | Q q i d                                                     q ∈ predict intervals pdep loglik devres summary
+    | S i d nb (glen (lam iters)^glen winner)^nb                  gam_i.sample(.., n_bootstraps = nb+1)
+    | G i d keep glen (lam iters)^glen winner                     gam_i.gridsearch(.., lam=grid, keep_best=keep)
+    | SL i c | SO i c | SM i c                                    set_params(lam=c) / (spline_order=c) / (tol…=c)
+    | CP i                                                        deepcopy / pickle round trip
+```
+Output: one block per op, blocks separated by ` ; `:
+`<out> | m <fitted> <mset> <nCoefs> <logLen|-1> <distKnown> <scaleId|-1> <fitId|-1> <predId|-1> <k> (<kind> <lam> <order> <nSplines> <knots|-1>)^k | m …`
+where `out` is `unit`, `created <n>`, `result <queryId>`, `error`, and for `F` ops ` fresh <0|1>` is appended
+(1 iff the binding of `coef_` equals that of a fresh model with the same settings fitted in an empty world).
+The ids number the distinct `FitIn` / `PredKey` / `QueryKey` values in order of first appearance in the history.
+-/
 namespace PyGam.Drv.C15
-open PyGam PyGam.Drv
+open PyGam PyGam.Drv PyGam.Heap
+
+def pKind : P Kind
+  | "S" :: r => some (.spline, r)
+  | "L" :: r => some (.linear, r)
+  | "F" :: r => some (.factor, r)
+  | _ => none
+
+def pCls : P Cls
+  | "linear" :: r => some (.linear, r)
+  | "gamma" :: r => some (.gamma, r)
+  | "invgauss" :: r => some (.invGauss, r)
+  | "expectile" :: r => some (.expectile, r)
+  | "logistic" :: r => some (.logistic, r)
+  | "poisson" :: r => some (.poisson, r)
+  | "generic" :: r => some (.generic, r)
+  | _ => none
+
+def pQuery : P Query
+  | "predict" :: r => some (.predict, r)
+  | "intervals" :: r => some (.intervals, r)
+  | "pdep" :: r => some (.partialDependence, r)
+  | "loglik" :: r => some (.loglikelihood, r)
+  | "devres" :: r => some (.devianceResiduals, r)
+  | "summary" :: r => some (.summary, r)
+  | _ => none
+
+def pTermSet : P TermSet := fun r => do
+  let (k, r) ← pKind r
+  let (f, r) ← pNat r
+  let (n, r) ← pNat r
+  let (o, r) ← pNat r
+  let (l, r) ← pNat r
+  let (u, r) ← pOptNat r
+  some (⟨k, f, n, o, l, u⟩, r)
+
+def pPair : P (Nat × Nat) := fun r => do
+  let (a, r) ← pNat r
+  let (b, r) ← pNat r
+  some ((a, b), r)
+
+def pGrid : P (List (Nat × Nat) × Nat) := fun r => do
+  let (g, r) ← pCounted pPair r
+  let (w, r) ← pNat r
+  some ((g, w), r)
+
+def pOp : P Op
+  | "E" :: r => do let (s, r) ← pCounted pTermSet r; some (.mkExpr s, r)
+  | "J" :: r => do let (a, r) ← pNat r; let (b, r) ← pNat r; some (.joinExpr a b, r)
+  | "C" :: r => do
+      let (c, r) ← pCls r; let (m, r) ← pNat r; let (k, r) ← pBool r; let (e, r) ← pNat r
+      some (.construct c m k e, r)
+  | "F" :: r => do let (i, r) ← pNat r; let (d, r) ← pNat r; let (k, r) ← pNat r; some (.fit i d k, r)
+  | "Q" :: r => do let (q, r) ← pQuery r; let (i, r) ← pNat r; let (d, r) ← pNat r; some (.query q i d, r)
+  | "S" :: r => do
+      let (i, r) ← pNat r; let (d, r) ← pNat r; let (b, r) ← pCounted pGrid r
+      some (.sample i d b, r)
+  | "G" :: r => do
+      let (i, r) ← pNat r; let (d, r) ← pNat r; let (k, r) ← pBool r; let (g, r) ← pGrid r
+      some (.gridsearch i d k g.1 g.2, r)
+  | "SL" :: r => do let (i, r) ← pNat r; let (c, r) ← pNat r; some (.setLam i c, r)
+  | "SO" :: r => do let (i, r) ← pNat r; let (c, r) ← pNat r; some (.setOrder i c, r)
+  | "SM" :: r => do let (i, r) ← pNat r; let (c, r) ← pNat r; some (.setModel i c, r)
+  | "CP" :: r => do let (i, r) ← pNat r; some (.copy i, r)
+  | _ => none
+
+/-- `;`-separated sections -/
+def splitSemi (l : List String) : List (List String) :=
+  l.foldr (fun s acc => if s = ";" then [] :: acc else match acc with
+    | [] => [[s]]
+    | a :: rest => (s :: a) :: rest) [[]]
+
+def pEnv (toks : List String) : Option Env := do
+  let nums ← parseNats? toks
+  match nums with
+  | nd :: nf :: tbl =>
+    if tbl.length ≠ nd * nf * 3 then none else
+    some { knots := fun d f cat => tbl.getD ((d * nf + f) * 3 + (if cat then 1 else 0)) 0,
+           ncat := fun d f => tbl.getD ((d * nf + f) * 3 + 2) 0 }
+  | _ => none
+
+/-- interning tables: distinct values numbered in order of first appearance -/
+structure Tables where
+  fits : List FitIn := []
+  preds : List PredKey := []
+  queries : List QueryKey := []
+
+def intern {α : Type} [DecidableEq α] (tbl : List α) (x : α) : List α × Nat :=
+  match tbl.idxOf? x with
+  | some i => (tbl, i)
+  | none => (tbl ++ [x], tbl.length)
+
+def showOptNat : Option Nat → String
+  | some n => toString n
+  | none => "-1"
+
+def kindTag : Kind → String
+  | .spline => "S" | .linear => "L" | .factor => "F"
+
+def showTerm (t : TermObj) : String :=
+  joinWith " " [kindTag t.set.kind, toString t.set.lam, toString t.set.order, toString t.set.nSplines, showOptNat t.knots]
+
+def showModel (tb : Tables) (v : ModelView) : Tables × String :=
+  let (fits, sid) := match v.dist.scale with
+    | some s => let (t, i) := intern tb.fits s; (t, some i)
+    | none => (tb.fits, none)
+  let (fits, fid) := match v.fitted with
+    | some s => let (t, i) := intern fits s; (t, some i)
+    | none => (fits, none)
+  let (preds, pid) := match v.predKey with
+    | some s => let (t, i) := intern tb.preds s; (t, some i)
+    | none => (tb.preds, none)
+  ({ tb with fits := fits, preds := preds },
+   joinWith " " (["m", if v.fitted.isSome then "1" else "0", toString v.mset, toString v.nCoefs,
+                  showOptNat (v.logs.map List.length), if v.dist.known then "1" else "0",
+                  showOptNat sid, showOptNat fid, showOptNat pid, toString v.terms.length]
+                 ++ v.terms.map showTerm))
+
+def showWorld (tb : Tables) (w : World) : Tables × List String :=
+  (List.range w.models.length).foldl (fun (acc : Tables × List String) j =>
+    match w.view j with
+    | some v => let (tb', s) := showModel acc.1 v; (tb', acc.2 ++ [s])
+    | none => acc) (tb, [])
+
+/-- the fresh-fit oracle inside the model: a new model with the same settings, fitted in an empty world -/
+def freshFit (env : Env) (s : Settings) (d : Data) (iters : Nat) : Option FitIn :=
+  let w := run env World.empty [.mkExpr s.terms, .construct s.cls s.mset s.scaleKnown 0, .fit 0 d iters]
+  (w.models[0]?).bind (·.fitted)
+
+def showOut (tb : Tables) : Out → Tables × String
+  | .unit => (tb, "unit")
+  | .created n => (tb, "created " ++ toString n)
+  | .error => (tb, "error")
+  | .result k => let (q, i) := intern tb.queries k; ({ tb with queries := q }, "result " ++ toString i)
+
+def runHist (env : Env) (ops : List Op) : String :=
+  let res := ops.foldl (fun (acc : World × Tables × List String) o =>
+    let (w, tb, outs) := acc
+    let (w', out) := step env w o
+    let (tb, so) := showOut tb out
+    let extra := match o with
+      | .fit i d k =>
+        match (w.view i).map ModelView.settings with
+        | some s => if freshFit env s d k = (w'.models[i]?).bind (·.fitted) ∧ (freshFit env s d k).isSome then " fresh 1" else " fresh 0"
+        | none => ""
+      | _ => ""
+    let (tb, ms) := showWorld tb w'
+    (w', tb, outs ++ [joinWith " | " ((so ++ extra) :: ms)])) (World.empty, ({} : Tables), [])
+  joinWith " ; " res.2.2
 
 /-- operations of the C15 model driver (`C15 <op> <args…>`); `none` ↦ `bad-op` -/
 def handle : List String → Option String
+  | "hist" :: rest =>
+    match splitBar rest with
+    | [envToks, opToks] => do
+        let env ← pEnv envToks
+        let ops ← (splitSemi opToks).mapM (fun ts => do
+          let (o, r) ← pOp ts
+          if r ≠ [] then none else some o)
+        some (runHist env ops)
+    | _ => none
   | _ => none
 end PyGam.Drv.C15
